@@ -976,7 +976,9 @@ impl Server {
                     }
 
                     // Remove the prepared statement from the cache, it has a syntax error or something else bad happened.
-                    if let Some(prepared_stmt_name) =
+                    // Everything after the error is skipped by the server until Sync,
+                    // so no statement still waiting for its ParseComplete was created.
+                    while let Some(prepared_stmt_name) =
                         self.registering_prepared_statement.pop_front()
                     {
                         if let Some(ref mut cache) = self.prepared_statement_cache {
